@@ -79,3 +79,4 @@ def finalize(sink, tier, seed):
         if b != 'jax':
             sink.require(f'leaf-layout:{b}:strided', 20)
             sink.require(f'leaf-layout:{b}:permuted', 5)
+    sink.require('x64-toggles', 20)
